@@ -26,3 +26,19 @@ Theorem C07_integrals_symmetric_diag : forall {T} (o : NumOps T) shell_l ecp_ato
     integrals_entry o shell_l ecp_atom mask blk0 gk gl = integrals_entry o shell_l ecp_atom mask blk0 gl gk.
 Proof. intros T o. exact (integrals_symmetric_diag o). Qed.
 Print Assumptions C07_integrals_symmetric_diag.
+
+(* The low-level statement on the shell-pair model (ShellPairModel, tied to ecpint.cpp / qgen.cpp by C01's K-a
+   correspondence): in exact arithmetic the generic semi-local contraction and the local contraction are unchanged when
+   the two shells are exchanged together with their leaves (harmonics SA <-> SB, the two angular indices of the radial
+   table) -- for every lambda, mu, pair of Cartesian functions, shifts, and every table. *)
+From Coq Require Import ZArith Reals.
+From LV Require Import Base.RInst ShellPair.ShellPairModel ShellPair.ShellPairSym.
+Theorem C07_rolled_up_swap : forall (pi_ : R) Om (S1 S2 : nat -> Z -> R) (rad : nat -> nat -> nat -> R) lam fa fb A B mu,
+  rolled_up ROps pi_ Om S1 S2 rad lam fa fb A B mu
+  = rolled_up ROps pi_ Om S2 S1 (fun N l1 l2 => rad N l2 l1) lam fb fa B A mu.
+Proof. exact rolled_up_swap. Qed.
+Print Assumptions C07_rolled_up_swap.
+Theorem C07_type1_swap : forall (pi_ : R) W rad1 fa fb A B,
+  type1 ROps pi_ W rad1 fa fb A B = type1 ROps pi_ W rad1 fb fa B A.
+Proof. exact type1_swap. Qed.
+Print Assumptions C07_type1_swap.
